@@ -69,7 +69,7 @@ Init == ns = <<>> /\ sels = <<>> /\ nextid = 1 /\ hist = <<>>
 Next == \/ \E p \in NsPrefixes, u \in Uris : (\E h \in {"text", "object"} : AddNs(p, u, h)) \/ NsSet(p, u) \/ (\E i \in 0..MaxNs : InsertNs(p, u, i))
         \/ \E p \in NsPrefixes : NsDel(p) \/ (\E k \in 1..MaxNs : SetPrefix(k, p))
         \/ \E k \in 1..MaxNs : DeleteNs(k)
-        \/ \E f \in Forms : (\E h \in {"rule", "object", "media"} : AddSel(f, h)) \/ (\E j \in 1..MaxSels : SetSelText(j, f))
+        \/ \E f \in Forms : (\E h \in {"rule", "object", "media", "mediatext"} : AddSel(f, h)) \/ (\E j \in 1..MaxSels : SetSelText(j, f))
         \/ \E j \in 1..MaxSels : Detach(j) \/ Attach(j)
 Spec == Init /\ [][Next]_vars
 View == <<ns, sels>>
